@@ -1798,7 +1798,7 @@ impl Engine for C09 {
         "exploration"
     }
     fn rule(&self) -> String {
-        "Seeded portfolio generator (1-4 securities, 1-4 affiliates incl. registered, buys/sells/RoC/manual SfLA/global+per-affiliate splits, CAD and explicit-rate USD, tied cost days, securities differing only in case, 1-3 files, a fifth of the files with a repeated recognised column (second memo/commission) or an unknown column; in --csv-output-dir modes every other later process finds the output directory already holding longer files of the same names from an earlier run; in a quarter of the inputs some USD rows carry no rate and the K processes of a mode run one after the other over one simulated ~/.acb, so the first downloads from the simulated Bank of Canada and the others find its cache) x 9 option combinations x K per-process hash seeds (K=6 quick, 24 thorough); each (input, mode, seed) is one simulated process running the real run_acb_app_to_console. A sixth of the inputs name a security with file-name special characters (RY:TO, BRK/B, A*B, ...); a quarter of the files permute their columns and respell (or annotate) header names; a fifth write share counts at other scales (10.0); sales are sometimes surrounded by a fractional round trip of another affiliate or followed by two oversells. Without look-ups the K processes of an input also run on different simulated days (20 or 90 days after the last settlement, or years later). End-to-end lane: a tenth of the inputs without look-ups are also run by the real acb binary (clap, main, exit status, real files) in real OS processes - 3 seeds x 7 modes - whose getrandom/clock/pid and memory layout (address-space randomisation off, seed-dependent heap/mmap/stack shifts) come from the simulator through an LD_PRELOAD seam; the seam is probed once per worker (same seed -> same HashSet order and addresses, other seed -> other order and addresses). One input in ten without look-ups runs under a full disk that every one of its processes meets alike (ENOSPC after N bytes of output in simulation, a file-size limit for real processes): the runs fail, and must still print and leave the same. Oracle: stdout bytes and (file name, bytes) of the output directory identical across seeds. evaluations = inputs; distinct_nontrivial = distinct inputs (digest of scenario JSON) whose run reached at least one probe (>=2 securities rendered, global split over >=2 affiliates, ignored notes in >=2 securities, tied yearly-max days, auto-SfL shared by >=2 affiliates, gains in >=2 years, summary with >=2 affiliates/securities).".to_string()
+        "Seeded portfolio generator (1-4 securities, 1-4 affiliates incl. registered, buys/sells/RoC/manual SfLA/global+per-affiliate splits, CAD and explicit-rate USD, tied cost days, securities differing only in case, 1-3 files, a fifth of the files with a repeated recognised column (second memo/commission) or an unknown column; in --csv-output-dir modes every other later process finds the output directory already holding longer files of the same names from an earlier run; in a quarter of the inputs some USD rows carry no rate and the K processes of a mode run one after the other over one simulated ~/.acb, so the first downloads from the simulated Bank of Canada and the others find its cache) x 9 option combinations x K per-process hash seeds (K=6 quick, 24 thorough); each (input, mode, seed) is one simulated process running the real run_acb_app_to_console. A sixth of the inputs name a security with file-name special characters (RY:TO, BRK/B, A*B, ...); a quarter of the files permute their columns and respell (or annotate) header names; a fifth write share counts at other scales (10.0); sales are sometimes surrounded by a fractional round trip of another affiliate or followed by two oversells. Without look-ups the K processes of an input also run on different simulated days (20 or 90 days after the last settlement, or years later). End-to-end lane: a tenth of the inputs without look-ups are also run by the real acb binary (clap, main, exit status, real files) in real OS processes - 3 seeds x 7 modes - whose getrandom/clock/pid and memory layout (address-space randomisation off, seed-dependent heap/mmap/stack shifts) come from the simulator through an LD_PRELOAD seam; the seam is probed once per worker (same seed -> same HashSet order and addresses, other seed -> other order and addresses). Oracle: stdout bytes and (file name, bytes) of the output directory identical across seeds. evaluations = inputs; distinct_nontrivial = distinct inputs (digest of scenario JSON) whose run reached at least one probe (>=2 securities rendered, global split over >=2 affiliates, ignored notes in >=2 securities, tied yearly-max days, auto-SfL shared by >=2 affiliates, gains in >=2 years, summary with >=2 affiliates/securities).".to_string()
     }
     fn state_measure(&self) -> String {
         "distinct (mode, exit status, number of output files, stdout size bucket of 2 KiB) tuples".to_string()
